@@ -795,9 +795,9 @@ namespace sim
             }
 
             case Ev::SOFT: {
-               static const char* what[] = { "?", "peek beyond the available data", "bump beyond the available data", "bump_in_this_line beyond the available data", "bump_to_next_line beyond the available data", "input end set outside the data", "reader asked to write outside the buffer" };
+               static const char* what[] = { "?", "peek beyond the available data", "bump beyond the available data", "bump_in_this_line beyond the available data", "bump_to_next_line beyond the available data", "input end set outside the data", "reader asked to write outside the buffer", "action input span outside the available data" };
                const std::uint32_t w = static_cast< std::uint32_t >( e.x );
-               cx.viol( w == 6 ? "C03.reader" : "C03.soft", top ? head_name( top->rule ) : "none", i, std::string( what[ w < 7 ? w : 0 ] ) + " (value " + std::to_string( e.y ) + ") at " + pos_str( e ) + " in " + ( top ? short_name( top->rule ) : std::string( "none" ) ) );
+               cx.viol( w == 6 ? "C03.reader" : "C03.soft", top ? head_name( top->rule ) : "none", i, std::string( what[ w < 8 ? w : 0 ] ) + " (value " + std::to_string( e.y ) + ") at " + pos_str( e ) + " in " + ( top ? short_name( top->rule ) : std::string( "none" ) ) );
                break;
             }
 
@@ -885,9 +885,11 @@ namespace sim
       // provided the documented window guarantee did not cover the failing request
       std::size_t alt_stop = alt.h.size();
       bool overflow = false;
+      bool io_fault = false;
       if( alt_is_buffer ) {
          std::uint32_t last_discard = 0;
          const Event* last_req = nullptr;
+         std::size_t last_req_idx = 0;
          for( std::size_t i = 0; i < alt.h.size(); ++i ) {
             const Event& e = alt.h[ i ];
             if( e.kind == Ev::DISCARD ) {
@@ -895,10 +897,18 @@ namespace sim
             }
             else if( e.kind == Ev::REQUIRE ) {
                last_req = &e;
+               last_req_idx = i;
+            }
+            else if( e.kind == Ev::FAULT && ( ( e.x >> 8 ) & 0xff ) == SITE_READER ) {
+               // injected I/O error: the alternative run may only deviate from here on (its own history is
+               // judged by the exception invariants); everything before must equal the reference
+               io_fault = true;
+               alt_stop = i;
+               break;
             }
             else if( ( e.kind == Ev::EXC || ( e.kind == Ev::TOP_END && ( e.flags & F_EXC ) ) ) && e.x < alt.excs.size() && alt.excs[ e.x ].cls == EXC_OVERFLOW ) {
                overflow = true;
-               alt_stop = i;
+               alt_stop = ( last_req != nullptr ) ? last_req_idx : i;  // the request that threw; unwind hooks follow it
                if( last_req == nullptr ) {
                   cx.viol( "C07.overflow", "no-request", i, "overflow_error without a preceding request" );
                }
@@ -952,7 +962,10 @@ namespace sim
             cx.viol( "C07.equal", key, j, "event " + std::to_string( n ) + " differs: reference { " + ev_brief( a, ref ) + " } alternative { " + ev_brief( b, alt ) + " }" );
             return;
          }
-         if( !( b.flags & ( F_SUB | F_NOPOS ) ) && b.pos != NOPOS && b.pos != b.byte && b.kind != Ev::RAISE_NESTED ) {
+         // pointer vs counter: not asserted while an exception unwinds (a rewind guard then restores an iterator
+         // saved before a top-level discard, which the documentation excludes from any guarantee)
+         const bool unwinding = ( b.kind == Ev::EXC || b.kind == Ev::UNWIND || ( b.kind == Ev::TOP_END && ( b.flags & F_EXC ) ) );
+         if( !unwinding && !( b.flags & ( F_SUB | F_NOPOS ) ) && b.pos != NOPOS && b.pos != b.byte && b.kind != Ev::RAISE_NESTED ) {
             cx.viol( "C07.equal", "pointer", j, "cursor pointer offset " + std::to_string( b.pos ) + " disagrees with the byte counter " + std::to_string( b.byte ) );
             return;
          }
@@ -960,7 +973,7 @@ namespace sim
          ++j;
          ++n;
       }
-      if( !overflow ) {
+      if( !overflow && !io_fault ) {
          while( i < ref.h.size() && !projected( ref.h[ i ] ) ) {
             ++i;
          }
